@@ -216,9 +216,23 @@ def r5_strict(ctx, m, res) -> None:
             cmp_ok = ("bitstrs.keys() != shot_dct.keys()" in s or "shot_dct.keys() != bitstrs.keys()" in s or "set(bitstrs) != set(shot_dct)" in s)
             ctx.check(cmp_ok, "C19.R5", "register_bitstrings: strict_names compares the register sets", m.path, g.stmt[t].lineno, "", g.stmt[t], found=s)
             # first shot exempt
-            first_ok = not after_merge and ("> 0" in s or "shot_dct" in s.split("and")[1] if " and " in s else False)
-            ctx.check(first_ok or after_merge, "C19.R5", "register_bitstrings: first shot defines the register set", m.path, g.stmt[t].lineno,
-                      "the first shot must not be compared with the (empty) accumulator", g.stmt[t], found=s)
+            if not after_merge:
+                # the exemption of the first shot must be positional (the loop's enumerate index / a first-iteration flag):
+                # exempting "while the accumulator is empty" also exempts every shot that follows shots without registers
+                tnode = g.stmt[t]
+                operands = tnode.values if isinstance(tnode, ast.BoolOp) and isinstance(tnode.op, ast.And) else [tnode]
+                others = [o for o in operands if u(o) != flag and not (isinstance(o, ast.Compare) and "keys()" in u(o)) and "set(" not in u(o)]
+                lps = [n for n in ast.walk(fn) if isinstance(n, ast.For) and "self.results" in u(n.iter)]
+                idx = None
+                if lps and isinstance(lps[0].iter, ast.Call) and u(lps[0].iter.func) == "enumerate" and isinstance(lps[0].target, ast.Tuple):
+                    idx = u(lps[0].target.elts[0])
+                positional = bool(others) and all(idx is not None and idx in [x.id for x in ast.walk(o) if isinstance(x, ast.Name)] for o in others)
+                by_content = [o for o in others if "shot_dct" in u(o)]
+                ctx.check(positional and not by_content, "C19.R5", "register_bitstrings: only the first shot is exempt from the strict_names test", m.path, tnode.lineno,
+                          "the first shot defines the register set and must be the only one exempt from the comparison; the exemption here is "
+                          f"`{' and '.join(u(o) for o in others) or '<none>'}`" + (", which depends on the accumulator's content: every shot following shots "
+                          "without registers is exempt too, so differing register sets are accepted" if by_content else ""), tnode,
+                          expected="<shot index> > 0", found=" and ".join(u(o) for o in others))
         else:
             s = u(g.stmt[t])
             ctx.check("len(shot_dct[reg][0]) != len(bitstr)" in s and "reg in shot_dct" in s, "C19.R5", "register_bitstrings: strict_lengths compares with the first recorded length",
@@ -275,6 +289,9 @@ def run(ctx) -> None:
     r4_write_semantics(ctx, m, shot, lp)
     r5_strict(ctx, m, res)
     r6_wrappers(ctx, m, res)
+    from .. import lints
+    lints.arm(ctx)
+
 
 
 # ---------------------------------------------------------------------------------------
